@@ -626,7 +626,21 @@ var bufferPool = &sync.Pool{ //nolint:gochecknoglobals
 func (c *Client) handleAgentCallback(event Event) { //nolint:cyclop
 	c.mux.Lock()
 	if c.closed {
+		// The client is closing: no re-transmission is possible any more, but
+		// a transaction that is still in flight must not be dropped silently,
+		// its handler (and a blocked Do) is waiting for the outcome.
+		transaction, found := c.t[event.TransactionID]
+		if found {
+			delete(c.t, transaction.id)
+		}
 		c.mux.Unlock()
+		if found {
+			if event.Error != nil {
+				event.Error = ErrClientClosed
+			}
+			transaction.handle(event)
+			putClientTransaction(transaction)
+		}
 
 		return
 	}
